@@ -21,7 +21,12 @@ Check C06_answered_at_deadline : forall c s dt en i x dl,
   entry_ (pl s) = Some en -> nth_error (lcs (pl s)) i = Some x -> l_pc x = PSelect dl -> dl <= now s + dt ->
   resps (snd (step c s (EvTick dt))) = map (fun h => OResp (hid h) r_tramp_fail) (listeners en) /\
   entry_ (pl (fst (step c s (EvTick dt)))) = None.
+Check C06_poll_held_or_answered : forall c s sel en,
+  entry_ (pl s) = Some en ->
+  (exists en', entry_ (pl (fst (step c s (EvPoll sel)))) = Some en' /\ listeners en' = listeners en) \/
+  (exists r, forall h, In h (listeners en) -> In (OResp (hid h) r) (snd (step c s (EvPoll sel)))).
 Print Assumptions C06_held_or_answered.
+Print Assumptions C06_poll_held_or_answered.
 Print Assumptions C06_answered_together_once.
 Print Assumptions C06_no_panic.
 Print Assumptions C06_never_stuck.
